@@ -187,8 +187,8 @@ PROPS['C06'] = {
                 'forward_ext == backward_ext of the swapped interval with the complemented symbol, swapped back', 'init_interval_with, BiInterval::{forward, revcomp, swapped}',
                 'dna::complement on all 256 bytes (complete Kani proof over the real table): the contract of the complement stub'],
     'undecided': ['that the FMIndex handed to FMDIndex counts the BWT of a SORTED suffix array of a text of the documented form: this is the hypothesis fmd_of of every postcondition (C04 proves the real Occ/Less/bwt tables count; SA-IS sortedness, C03, is not proved; FMDIndex::from only checks the alphabet)',
-                  'init_interval, From<FMIndex> (alphabet check)', 'patterns with symbols outside ACGTNacgtn (precondition dna_word), l == 0'],
-    'trusted': ['abstract FM index stub (occ/less return socc/sless; the hypothesis fmd_of ties socc/sless to the counts C04 proves of the real tables)', 'dna::complement stub - contract discharged by the Kani harness above',
+                  'init_interval, From<FMIndex> (alphabet check)', 'patterns with symbols outside ACGTNacgtn (precondition dna_word), l == 0', 'indexes whose Occ / Less tables do not cover all of $ACGTNacgtn (precondition covers(): true for tables built with dna::n_alphabet() as FMDIndex::from documents; with a smaller alphabet, e.g. upper case only, backward_ext would index the Occ table out of bounds - FMDIndex::from checks the BWT symbols, not the table sizes)'],
+    'trusted': ['FM index stub whose occ / less contracts are the ones PROVED of the real FMIndex in unit C05/fmindex, restated (occ(r, a) = number of a in bwt[0..=r] given an Occ table for a; less(a) = number of BWT symbols below a given a Less entry for a) - so the hypothesis fmd_of reduces to "the index was built over the BWT of (t, pos)" (lemma_fmd_of_bwt) and the counting laws wf() are derived (lemma_wf_of)', 'dna::complement stub - contract discharged by the Kani harness above',
                 'std: slice::reverse (assume_specification: elements in reverse order), derived Copy/Clone of BiInterval (field-wise), Vec::append / mem::swap / Vec::clear as specified by vstd', 'pattern.len() < 2^47 (precondition; slices are below isize::MAX anyway)'],
     'level_text': 'Verus proves, on the real smems / all_smems / backward_ext / forward_ext / init_interval_with, the property as stated: smems returns exactly the supermaximal exact matches covering i of length >= l with exact forward and reverse-complement intervals, all_smems every supermaximal match at least once and nothing else, extension steps yield exact bi-intervals - for every reverse-complement-closed DNA text, every sorted suffix array of it and every index counting its BWT (hypothesis fmd_of); the mathematics (LF mapping, bi-interval theorem, closure of s$revcomp(s)$ texts) is machine-checked in the same unit without axioms; complement table by a complete Kani proof.',
     'level_note': 'Level other: unbounded proof of every clause GIVEN that the index counts the BWT of a sorted suffix array (SA-IS sortedness is C03 and not proved). Trusted: FM index stub under hypothesis fmd_of, slice::reverse spec, derived Copy, Verus/Z3, Kani/CBMC.',
